@@ -311,16 +311,12 @@ def writer_token(r, ctx):
         if not some:
             r.bad("%s/writer-take-matched" % nm, tk[0].loc(), "writer.take() result is not matched")
             continue
-        # exception: the `?` on write_to_buffer (InvalidKey) drops the sender: fail-stop, the channel closes.
-        dis = []
-        for c in b.calls:
-            if c.name == "write_to_buffer":
-                te = b.try_edges(c)
-                if te:
-                    dis.append(te[1])
-        ok, wit = b.must_pass([some[0]], {c.block for c in news} | set(dis))
-        r.check(ok and bool(news), "%s/taken-writer=>WriteTask" % nm, tk[0].loc(), "a taken writer always becomes a WriteTask (except the InvalidKey error edge, which drops it and closes the channel)",
-                "a taken writer can be dropped without producing a WriteTask: %s" % wit)
+        # ... or is put back into self.writer (an event that is rejected before anything is written: handle_event discards the event and carries on,
+        # so a sender that is dropped here leaves the remote attached, linked and counted but never written to again - F61)
+        back = {i for i, j, p, rv, line in b.assigns() if p[1] and describe_place(b, p).endswith("writer") and describe_rvalue(b, rv).startswith("Option::Some(")}
+        ok, wit = b.must_pass([some[0]], {c.block for c in news} | back)
+        r.check(ok and bool(news), "%s/taken-writer=>WriteTask" % nm, tk[0].loc(), "a taken writer always becomes a WriteTask or is put back (%d store-back site%s)" % (len(back), "" if len(back) == 1 else "s"),
+                "a taken writer can be dropped without producing a WriteTask and without being put back (path %s): the caller discards the error and carries on, so the remote stays attached and linked but nothing is ever written to it again" % wit)
         for c in news:
             a0 = describe_operand(b, c.args[0])
             r.check("take(self.writer)" in a0, "%s/WriteTask-uses-taken-writer" % nm, c.loc(), "WriteTask built from the taken writer")
